@@ -497,7 +497,7 @@ def register_ast(w):
         bad = []
         covered = {q for (q, _), c in world.contracts.items() if "C01" in c.props}
         for rf, (src, tree) in world.repo.files.items():
-            if not (rf.startswith("pygopherd/handlers/") or rf == "pygopherd/gopherentry.py"):
+            if not (rf.startswith("pygopherd/handlers/") or rf.startswith("pygopherd/protocols/") or rf == "pygopherd/gopherentry.py"):
                 continue
             for cls in [n for n in tree.body if isinstance(n, ast.ClassDef)] + [None]:
                 funcs = [n for n in (cls.body if cls else tree.body) if isinstance(n, ast.FunctionDef)]
